@@ -129,8 +129,14 @@ def rule_callbacks(P):
         f = P.fn(name)
         dis = list(f.calls("bufferevent_disable"))
         rep = list(f.calls("bufferevent_run_eventcb_"))
-        ok = len(dis) == 1 and len(rep) == 1 and is_e(strip(dis[0].e[2][1]), "int") and strip(dis[0].e[2][1])[1] == bit and \
-            is_e(strip(rep[0].e[2][1]), "int") and strip(rep[0].e[2][1])[1] == (TIMEOUT | dirbit) and f.path_avoiding(dis[0].pos(), lambda x: x is rep[0], lambda x: False) is not None
+        def const(e):
+            try:
+                v = evalx(e, {}, P)
+            except Exception:
+                v = None
+            return v if isinstance(v, int) else None
+        ok = len(dis) == 1 and len(rep) == 1 and const(dis[0].e[2][1]) == bit and \
+            const(rep[0].e[2][1]) == (TIMEOUT | dirbit) and f.path_avoiding(dis[0].pos(), lambda x: x is rep[0], lambda x: False) is not None
         r.inst(name, {"fn": name, "disables": show(dis[0].e[2][1]) if dis else None, "reports": show(rep[0].e[2][1]) if rep else None})
         if not ok:
             r.bad("K7:%s:direction" % name, "%s:%d" % (f.file, f.line), name, "the %s timeout callback does not disable %s and then report TIMEOUT|%s" % ("read" if bit == R_ else "write", "EV_READ" if bit == R_ else "EV_WRITE", "READING" if bit == R_ else "WRITING"))
